@@ -28,6 +28,9 @@ const BAD_UNITS: &[(&[u8], &str)] = &[
     (b":ABCDEFGHIJKLMNOP", "mnemonic-too-long"),
     (b"\xc3\xa9", "non-ascii-in-header"),
     (b"?1", "data-after-query"),
+    // an empty unit behind a complete one (`HDR;;NEXT`, `HDR 1; ;NEXT`): the unit in front of it is well-formed and runs to completion
+    (b";", "empty-unit"),
+    (b" 1; ", "empty-unit"),
 ];
 
 fn pick_error(rng: &mut Rng) -> Error {
@@ -138,7 +141,7 @@ pub fn run(cfg: &Cfg, rep: &mut Report) {
                     // syntax error placed in this unit: header, then something ill-formed
                     let (b, name) = *rng.pick(BAD_UNITS);
                     let mut hd = gu.header();
-                    if hd.last() == Some(&b'?') && b[0] != b' ' {
+                    if hd.last() == Some(&b'?') && b[0] != b' ' && name != "empty-unit" {
                         hd.pop();
                     }
                     msg.extend_from_slice(&hd);
@@ -186,7 +189,9 @@ pub fn run(cfg: &Cfg, rep: &mut Report) {
                 render_ending(rng, ending, &mut msg);
             }
 
-            if fault == 5 && !matches!(crate::refm::lexer::lex_message(&msg), crate::refm::lexer::Lex::Reject(..)) {
+            // (an empty unit is a zone the reference does not judge: whether the library accepts or refuses `A;;B` is its choice;
+            // what is judged below is only that the well-formed units in front of the stray separator ran to completion)
+            if fault == 5 && bad_kind != "empty-unit" && !matches!(crate::refm::lexer::lex_message(&msg), crate::refm::lexer::Lex::Reject(..)) {
                 // later text happened to repair the corruption (e.g. a quote closing the open string)
                 ctx.count("messages.skipped(syntax fault not confirmed by the reference lexer)");
                 continue;
@@ -254,6 +259,29 @@ pub fn run(cfg: &Cfg, rep: &mut Report) {
             c.mav = rng.chance(1, 3);
             let r = built.root().run(&msg, &mut dev, &mut c, &mut resp);
             let got = dev.invocations();
+            // a fault in a later unit is not visible to the handlers of the units in front of it: they ran to completion
+            // (for an empty unit that includes the well-formed unit written in front of the stray separator)
+            if fault == 4 || fault == 5 {
+                let through = if bad_kind == "empty-unit" { fi + 1 } else { fi };
+                let mut j = 0usize;
+                for e in dev.log.iter() {
+                    if let Ev::Return { err, .. } = e {
+                        if j < through && err.is_some() {
+                            ctx.violation(&format!("C05:handler-of-an-earlier-unit-saw-the-fault-of-a-later-unit:{}", fault_name.split(':').last().unwrap()), jobj(&[("message", jbytes(&msg)), ("fault", jstr(&fault_name)), ("fault_unit", fi.to_string()), ("unit", j.to_string()), ("handler_result", jstr(&format!("{:?}", err)))]));
+                        }
+                        j += 1;
+                    }
+                }
+            }
+            if bad_kind == "empty-unit" {
+                // the units up to and including the one in front of the stray separator were invoked, in order, once each
+                let want: Vec<(u32, bool)> = units[..=fi].iter().map(|(h, q)| (*h as u32, *q)).collect();
+                if got.len() < want.len() || got[..want.len()] != want[..] {
+                    ctx.violation("C05:earlier-unit-not-executed:empty-unit", jobj(&[("message", jbytes(&msg)), ("expected_invocations(prefix)", jstr(&format!("{:?}", want))), ("observed_invocations", jstr(&format!("{:?}", got)))]));
+                }
+                ctx.count(if r.is_ok() { "empty-unit.message-accepted(no verdict on the choice)" } else { "empty-unit.message-refused(no verdict on the choice)" });
+                continue;
+            }
             // expected invocations
             let (exp_inv, expect): (Vec<(u32, bool)>, Expect) = match fault {
                 0 => (units.iter().map(|(h, q)| (*h as u32, *q)).collect(), Expect::Success),
